@@ -217,6 +217,9 @@ func (vc *VC) applyContract(st *State, call *ast.CallExpr, c *Contract, callee *
 		pi = vc.pkg // dependency outside the module: resolve names in the caller's package
 	}
 	names := vc.contractNames(c, callee, sig, recv, args, nil)
+	if vc.w.Pkgs[c.Pkg] != nil {
+		st.approx = true // a callee of this module stands for its contract from here on
+	}
 	pre := &SpecScope{cur: st, old: nil, names: names, pkg: pi, predPkg: c.Pkg, where: "call " + key}
 	for _, r := range c.Requires {
 		t := vc.evalSpecBoolIn(pre, r.Expr)
@@ -570,7 +573,18 @@ func (vc *VC) recordPointees(st *State, name string, v *Value, T types.Type) {
 			vc.inputs = append(vc.inputs, InputSym{Name: fmt.Sprintf("%s[%d]", path, i), Term: sel2(h, s.Arr, app("+", s.Off, fmt.Sprint(i)))})
 		}
 	}
+	strOf := func(path string, s *Value, ST types.Type) {
+		if s == nil || s.K != VInt || ST == nil || !isString(ST) {
+			return
+		}
+		vc.inputs = append(vc.inputs, InputSym{Name: path + "#strlen", Term: app("strlen", s.Term)})
+		for i := 0; i < 32; i++ {
+			vc.inputs = append(vc.inputs, InputSym{Name: fmt.Sprintf("%s#str[%d]", path, i), Term: app("strat", s.Term, fmt.Sprint(i))})
+		}
+	}
 	switch u := under(T).(type) {
+	case *types.Basic:
+		strOf(name, v, T)
 	case *types.Slice:
 		bytesOf(name, v)
 	case *types.Pointer:
@@ -582,14 +596,21 @@ func (vc *VC) recordPointees(st *State, name string, v *Value, T types.Type) {
 			vc.inputs = append(vc.inputs, InputSym{Name: path, Term: leaf.Term})
 		})
 		if pv.K == VStruct {
-			for _, fn := range pv.FOrder {
+			st2, _ := under(u.Elem()).(*types.Struct)
+			for i, fn := range pv.FOrder {
 				bytesOf(name+"->."+fn, pv.Fields[fn])
+				if st2 != nil && i < st2.NumFields() {
+					strOf(name+"->."+fn, pv.Fields[fn], st2.Field(i).Type())
+				}
 			}
 		}
 	case *types.Struct:
 		if v.K == VStruct {
-			for _, fn := range v.FOrder {
+			for i, fn := range v.FOrder {
 				bytesOf(name+"."+fn, v.Fields[fn])
+				if i < u.NumFields() {
+					strOf(name+"."+fn, v.Fields[fn], u.Field(i).Type())
+				}
 			}
 		}
 	}
